@@ -53,4 +53,24 @@ CHECKS["C17"] = {
     "note": "real arithmetic (numerical stability for large offsets NOT decided); arrays lifted component-wise (1 resp. 2 generic components); (1/m)^kappa and sqrt uninterpreted; matrix "
             "constructors and sample_momentum are contract stubs; precondition: every chain contributes >= 1 update.",
 }
+CHECKS["C04"] = {
+    "engine": "pyvc",
+    "technique": "contract-based deductive verification: loop invariants over abstract operator words (pos == pos0 - Phi_q mu, mu in range(J_prev^T)) on the real projection solvers; ghost-trace postconditions on the constrained integrator; z3",
+    "design_ref": "DESIGN.md section 7 C04",
+    "text": "The three projection solvers are symbolically executed from source with the system as a contract stub: an inductive invariant proves that position and momentum corrections "
+            "share one Lagrange multiplier in range(J_prev^T) for every iteration count (including the exhausted line search), a normal return implies a residual below tolerance evaluated at "
+            "the returned position, failures are ConvergenceErrors; the constrained integrator is proved to project after every sub-step for any inner-step count.",
+    "note": "convergence (liveness) not claimed; constraint function/Jacobian uninterpreted (A4); dh2_flow_dmom and Gram inverse are contract stubs (C07/C10); the closed-form cotangent "
+            "projection identity J M^-1 P p = 0 belongs to the symbolic-array engine (listed in evidence notes when not built); reals for floats.",
+}
+CHECKS["C12"] = {
+    "engine": "pyvc",
+    "technique": "contract-based deductive verification with exceptional postconditions: fault-model contracts on every user-function call (return / NaN / inf / ValueError / LinAlgError) in the real solver and integrator source; z3",
+    "design_ref": "DESIGN.md section 7 C12",
+    "text": "For every call site and every iteration (loop invariants; first iteration executed from the exact entry state) of the five solvers: a normal return implies a finite error "
+            "below tolerance on the returned iterate and every exceptional exit is a ConvergenceError; integrator sub-steps never continue after a failed reversibility check and step() "
+            "lets only IntegratorErrors escape; NaN-induced mici.errors.LinAlgError escaping step() is reported as the known finding D13.",
+    "note": "faults are not injected into the solver set-up calls on the previous (already validated) state; transitions' handling of IntegratorError / NaN energies is covered by the "
+            "transition contracts when built (see evidence notes); multi-iteration chain continuation rests on C13's loop invariant.",
+}
 NOT_APPLICABLE = {}
